@@ -95,7 +95,8 @@ theorem C02_dinf_sound (E : Env K X Y Z) (hE : E.Lawful) (i : conelp.In K X Y Z)
   obtain ⟨rg, hrg, hle⟩ := optCmp_some hc.1 hc.2
   have hdef : st.dinfres = if decide (st.cx < 0) then
       some (max (E.nY ((1:K) • E.A i.x + (0:K) • 0) / i.resy0)
-                (E.nZ ((1:K) • E.G i.x + (0:K) • 0 + (1:K) • i.s) / i.resz0) / (-st.cx)) else none := rfl
+                (E.nZ ((1:K) • E.G i.x + (0:K) • 0 + (1:K) • i.s) / i.resz0) / (-st.cx)) else none := by
+    first | rfl | (rw [max_comm]; rfl)          -- (the order of the two arguments of max in the source does not matter)
   have hneg : st.cx < 0 := by
     by_contra hcon
     rw [hdef] at hrg; simp [hcon] at hrg
@@ -119,12 +120,12 @@ theorem C02_dinf_sound (E : Env K X Y Z) (hE : E.Lawful) (i : conelp.In K X Y Z)
     have hcx : st.cx ≠ 0 := hneg.ne
     rw [h1]; field_simp
   · rw [e2, hE.nY_smul, habs]
-    have h1 := le_trans (le_max_left _ _) hmax
+    have h1 : E.nY ((1:K) • E.A i.x + (0:K) • 0) / i.resy0 ≤ _ := le_trans (by first | exact le_max_left _ _ | exact le_max_right _ _) hmax
     rw [div_le_iff₀ hy0] at h1
     calc _ = E.nY ((1:K) • E.A i.x + (0:K) • 0) / (-st.cx) := by ring
       _ ≤ _ := by rw [div_le_iff₀ hpos]; linarith
   · rw [e3, hE.nZ_smul, habs]
-    have h1 := le_trans (le_max_right _ _) hmax
+    have h1 : E.nZ ((1:K) • E.G i.x + (0:K) • 0 + (1:K) • i.s) / i.resz0 ≤ _ := le_trans (by first | exact le_max_left _ _ | exact le_max_right _ _) hmax
     rw [div_le_iff₀ hz0] at h1
     calc _ = E.nZ ((1:K) • E.G i.x + (0:K) • 0 + (1:K) • i.s) / (-st.cx) := by ring
       _ ≤ _ := by rw [div_le_iff₀ hpos]; linarith
